@@ -1264,6 +1264,15 @@ static void cmd_new(char **tok, int ntok)
         rc = matrixSslNewClientSession(&e->ssl, ks->keys, sid, ns ? suites : NULL, ns, cb,
                 opt_get(tok, ntok, "name"), NULL, NULL, &opts);
     }
+    if (rc >= 0 && (v = opt_get(tok, ntok, "nosuites")))
+    {
+        /* per-session disabling of cipher suites (server side restriction of the enabled set) */
+        char tmp[256], *parts[32];
+        int n, k;
+        snprintf(tmp, sizeof(tmp), "%s", v);
+        n = split_csv(tmp, parts, 32);
+        for (k = 0; k < n; k++) matrixSslSetCipherSuiteEnabledStatus(e->ssl, (psCipher16_t) strtol(parts[k], NULL, 0), PS_FALSE);
+    }
     e->lastrc = rc;
     if (rc < 0) { e->ssl = NULL; }
     emit_begin(&g_out, "new", e);
@@ -1793,6 +1802,10 @@ static void cmd_state(char **tok)
                 s->sec.tls13ChosenPsk->isResumptionPsk ? 1 : 0);
         }
         else sb_printf(&g_out, ",\"cpsk\":\"-\",\"cpskres\":0");
+    }
+    if (e->ssl)
+    {
+        sb_printf(&g_out, ",\"grp\":%d,\"sig13\":%d", USING_TLS_1_3(e->ssl) ? (int) e->ssl->tls13NegotiatedGroup : 0, (int) e->ssl->sec.tls13CvSigAlg);
     }
     sb_printf(&g_out, ",\"peer\":\"%s\"", e->peer ? e->peer->name : "-");
     emit_end(&g_out);
